@@ -100,9 +100,14 @@ fn oracle(c: &EncCase) -> Verdict {
     let refusal_scale = match c.scale_kind { 0 => Some(0.0), 1 => Some(-(2f64.powi(20))), 2 => Some((qbits - 1.0).exp2()), 3 => Some((qbits + 3.0).exp2()), _ => None };
     let adm_hi = (qbits - 2.0).max(0.0);
     let se = (c.scale_e.rem_euclid(adm_hi as i32 + 1)) as f64;
-    let scale = refusal_scale.unwrap_or_else(|| { let s = se.exp2() * (1.0 + c.scale_m as f64 / (1u64 << 20) as f64); if s.log2() + 1.0 < qbits - 1e-9 { s } else { se.exp2() } });
+    // scale_kind 4: exact powers of two whose product lands on (or next to) a word boundary of the multi-word decomposition
+    // (scaled magnitude exactly 2^63, 2^64, 2^65, 2^127, 2^128, ...): the boundary values of the 64- / 128-bit / multi-word paths
+    let pow2 = c.scale_kind == 4;
+    let scale = refusal_scale.unwrap_or_else(|| { let s = se.exp2() * (1.0 + c.scale_m as f64 / (1u64 << 20) as f64); if !pow2 && s.log2() + 1.0 < qbits - 1e-9 { s } else { se.exp2() } });
+    const BOUNDARY: [i32; 12] = [63, 64, 65, 127, 128, 129, 191, 192, 193, 255, 256, 257];
+    let bexp = BOUNDARY[c.vexp.rem_euclid(BOUNDARY.len() as i32) as usize] as f64;
     // ---- values
-    let vm = |m: i32| (m as f64) * ((c.vexp - 31) as f64).exp2();
+    let vm = |m: i32| if pow2 { (if m < 0 { -1.0 } else { 1.0 }) * (bexp - se).exp2() } else { (m as f64) * ((c.vexp - 31) as f64).exp2() };
     let cnt = match c.len_sel % 5 { 0 => 1, 1 => slots, 2 => 0, _ => 1 + pick_idx(c.len_sel, slots) };
     let mut vals: Vec<Complex64> = c.vals.iter().take(cnt).map(|(a, b)| Complex64::new(vm(*a), if c.len_sel & 0x100 != 0 { 0.0 } else { vm(*b) })).collect();
     if c.entry == Entry::Array && vals.is_empty() { vals.push(Complex64::new(vm(c.vals[0].0), 0.0)); }
